@@ -27,7 +27,7 @@ CHECKS = {
          'NoCrossTalk/GetNeverFails/NamesUnique/CachedWorks for every interleaving (2 threads quick, 3 thorough) and the non-atomic variant must '
          'produce the race.  Real threads are driven through every schedule with <=2 pre-emptions at source-line granularity (3 threads / deeper '
          'sampled) by a deterministic scheduler; each execution trace (namespace, cache size, hits, misses, returned rows) is validated by TLC '
-         'against Trace_FilterCache.tla; sequential histories around the real capacity are validated with K=capacity.',
+         'against Trace_FilterCache.tla; sequential histories around the real capacity are validated with K=capacity.  Sampled additions: the first filters of fresh processes compiled by several threads at once (cold starts), and already compiled a->b filters evaluated by several threads at once on one grid (warm races).',
     ref='DESIGN.md 5/C13, Appendix C', technique='TLA+ spec FilterCache + TLC exhaustive model check; deterministic schedule enumeration on real threads; TLC trace validation with unlogged state',
     note='pre-emption at source lines of grid_filter.py / Grid.filter only; concurrent scenarios use a maxsize=2 re-wrap of the cache; a schedule is a VIOLATION only if TLC rejects it AND some returned result is wrong/raises (pure conformance deviations are reported but do not fail)'),
  'C17': dict(
